@@ -38,12 +38,18 @@ void *_cbor_alloc_multiple(size_t item_size, size_t item_count)
 __CPROVER_requires(_cbor_malloc == v_malloc)
 __CPROVER_requires(g_malloc_calls < SIZE_MAX)
 __CPROVER_assigns(ALLOC_GHOSTS)
-__CPROVER_ensures(__CPROVER_return_value != NULL ==> !__CPROVER_overflow_mult(item_size, item_count))
-__CPROVER_ensures(__CPROVER_return_value != NULL ==> g_last_req == item_size * item_count)
-__CPROVER_ensures(__CPROVER_return_value != NULL ==> g_malloc_calls == __CPROVER_old(g_malloc_calls) + 1)
-__CPROVER_ensures(__CPROVER_return_value != NULL ==> __CPROVER_is_fresh(__CPROVER_return_value, item_size * item_count))
+/* granted: a fresh block of exactly the (non-wrapping) product, obtained by exactly one malloc request */
+__CPROVER_ensures(__CPROVER_return_value == NULL ||
+                  (__CPROVER_is_fresh(__CPROVER_return_value, item_size * item_count) &&
+                   !__CPROVER_overflow_mult(item_size, item_count)))
+__CPROVER_ensures(__CPROVER_return_value != NULL ==>
+                  (g_last_req == item_size * item_count && g_malloc_calls == __CPROVER_old(g_malloc_calls) + 1 &&
+                   item_size * item_count <= VERIF_MAXOBJ /* the model grants no larger block */))
+/* a wrapping product issues no request at all */
 __CPROVER_ensures(__CPROVER_overflow_mult(item_size, item_count) ==>
                   (__CPROVER_return_value == NULL && g_malloc_calls == __CPROVER_old(g_malloc_calls)))
 __CPROVER_ensures(g_malloc_calls <= __CPROVER_old(g_malloc_calls) + 1)
-__CPROVER_ensures(g_live == __CPROVER_old(g_live) + (__CPROVER_return_value != NULL ? 1 : 0));
+__CPROVER_ensures(g_live == __CPROVER_old(g_live) + (__CPROVER_return_value != NULL ? 1 : 0))
+__CPROVER_ensures(g_realloc_calls == __CPROVER_old(g_realloc_calls) && g_free_calls == __CPROVER_old(g_free_calls))
+__CPROVER_ensures((__CPROVER_return_value == NULL && g_malloc_calls != __CPROVER_old(g_malloc_calls)) ==> g_refused);
 #endif
